@@ -16,5 +16,6 @@ func main() {
 	fmt.Println(synth.Parallel(6))
 	fmt.Println(synth.Channels(4))
 	fmt.Println(synth.Channels(3))
+	fmt.Println(synth.CondQueue(5))
 	fmt.Println(synth.Summary())
 }
